@@ -1,6 +1,6 @@
 """Property -> rules."""
 from .prog import Program
-from . import rules_cg, lalr, rules_dispatch, rules_wrap
+from . import rules_cg, lalr, rules_dispatch, rules_wrap, rules_mem
 
 _progs = {}
 
@@ -40,7 +40,14 @@ def c06(chk, tier):
     rules_wrap.r_ptrptr(P(), chk)
 
 
+def c01(chk, tier):
+    chk.explanation = "Static: R-ARRAY (interval analysis of every fixed-array index/copy), R-TYPEWRITE."
+    rules_mem.r_array(P(), chk)
+    rules_mem.r_lookbehind(P(), chk)
+
+
 PROPS = {
+    "C01": ("other", c01),
     "C06": ("other", c06),
     "C04": ("other", c04),
     "C02": ("other", c02),
